@@ -33,7 +33,9 @@ Pick(s, S) == IF Exhaustive THEN S ELSE {RandomElement(S)}
 -----------------------------------------------------------------------------
 (* Alphabets                                                               *)
 
-TypeNames   == IF Rich THEN {"@a", "@b", "@c", "@d"} ELSE {"@a", "@b"}
+\* "dense": three type names and only the special property kinds, so that chains of allOf over types
+\* with nested objects / shortcut keys are frequent
+TypeNames   == IF "dense" \in Features THEN {"@a", "@b", "@c"} ELSE IF Rich THEN {"@a", "@b", "@c", "@d"} ELSE {"@a", "@b"}
 EnumNames   == {"@e", "@f"}
 TagNames    == {"@g", "@h"}
 ServerNames == {"@s", "@t"}
@@ -72,7 +74,10 @@ PropPool == {P("id", "int", ""), P("name", "str", ""), P("ra", "ref", "@a"), P("
             \cup (IF "skey" \in Features THEN {P("@kt", "skey", "@kt")} ELSE {})
 SmallPropPool == {P("id", "int", ""), P("rb", "ref", "@b"), P("en", "enum", "@e")}
 
-PropSeqs == IF Rich
+DensePool == {P("id", "int", ""), P("@kt", "skey", "@kt"), P("no", "nobj", "@b"), P("nc", "nobj", "@c"), P("rb", "ref", "@b")}
+PropSeqs == IF "dense" \in Features
+            THEN {<<x>> : x \in DensePool} \cup {<<P("k1", "int", ""), y>> : y \in DensePool}
+            ELSE IF Rich
             THEN {<<x>> : x \in PropPool} \cup {<<x, y>> : x \in {P("id", "int", ""), P("k1", "int", "")}, y \in PropPool \ {P("id", "int", ""), P("k1", "int", "")}}
             ELSE {<<x>> : x \in SmallPropPool}
 
@@ -132,9 +137,18 @@ GenInfo(s)   == {[t |-> "info", title |-> ti, version |-> ve, desc |-> de] :
                 ti \in Pick(s, {"", "My API"}), ve \in Pick(s, {"", "1.2"}), de \in Pick(s, Descs)}
 GenServer(s) == {[t |-> "server", name |-> n, annot |-> a, base |-> b] :
                 n \in Pick(s, ServerNames), a \in Pick(s, Annots), b \in Pick(s, {"http://x.y/z", "https://h"})}
-GenType(s)   == {[t |-> "type", name |-> n, annot |-> a, body |-> b] :
-                n \in Pick(s, TypeNames), a \in Pick(s, Annots),
-                b \in Pick(s, TypeBodies \cup AllOfBodies)}
+\* "graph": all inheritance graphs over three types (exhaustive configs): every type is an object with one
+\* of four property kinds and inherits from none, one or two of the other types, in either order
+GraphProps(n) == {<<P("i" \o n, "int", "")>>, <<P("@kt", "skey", "@kt")>>, <<P("o" \o n, "nobj", "@c")>>,
+                  <<P("r" \o n, "ref", "@b"), P("k" \o n, "int", "")>>, <<P("s" \o n, "str", ""), P("@kt", "skey", "@kt")>>}
+GraphAllOf(n) == LET o == {"@a", "@b", "@c"} \ {n} IN
+                 {<< >>} \cup {<<x>> : x \in o} \cup UNION {{<<x, y>> : y \in o \ {x}} : x \in o}
+GenType(s)   == IF "graph" \in Features
+                THEN UNION {{[t |-> "type", name |-> n, annot |-> "", body |-> Body("obj", "", ps, ao)] :
+                              ps \in GraphProps(n), ao \in GraphAllOf(n)} : n \in {"@a", "@b", "@c"}}
+                ELSE {[t |-> "type", name |-> n, annot |-> a, body |-> b] :
+                        n \in Pick(s, TypeNames), a \in Pick(s, Annots),
+                        b \in Pick(s, TypeBodies \cup AllOfBodies)}
 GenEnum(s)   == {[t |-> "enum", name |-> n, annot |-> a] : n \in Pick(s, EnumNames), a \in Pick(s, Annots)}
 GenTag(s)    == {[t |-> "tag", name |-> n, annot |-> a, desc |-> d] :
                 n \in Pick(s, TagNames), a \in Pick(s, Annots), d \in Pick(s, Descs)}
@@ -592,7 +606,8 @@ Tx(d) ==
        removable |-> {[i |-> i, keys |-> CatKeys(Catalog(d)) \ CatKeys(Catalog(RemoveAt2(d, i)))] : i \in Removable(d)},
        fault |-> f, fault_sites |-> FaultSites(d, f) ]
 
-Emit == phase = "done" =>
+\* exhaustive configs: only complete graphs (MaxBlocks blocks) are emitted
+Emit == (phase = "done" /\ ("graph" \in Features => (Len(doc) >= MaxBlocks /\ Valid(doc)))) =>
           PrintT("MBT " \o ToJson([doc |-> doc, valid |-> Valid(doc),
                                    cat |-> IF Valid(doc) THEN << Catalog(doc) >> ELSE << >>,
                                    tx  |-> IF Valid(doc) THEN << Tx(doc) >> ELSE << >>]))
